@@ -7,7 +7,9 @@ use crate::verif::props::gen_out::*;
 use crate::verif::refcodec::app::{self as refapp, Range, ReqHeader};
 use crate::verif::rng::{mix, Rng};
 use crate::verif::runner::{erase, Codec, Outcome, Property, Scenario, Tier, Violation};
-use crate::verif::sout::{self, ConfSel, Dest, Op, Oracle, SeqSel, SoutCase, Step, TimeBase, Who, World};
+use crate::verif::sout::{
+    self, ConfSel, Dest, Op, Oracle, SeqSel, SoutCase, Step, TimeBase, Who, World,
+};
 use std::collections::BTreeMap;
 
 pub struct ReplyScenario;
@@ -20,7 +22,9 @@ pub fn property<C: Codec>() -> Property {
 }
 
 /// function codes the outstation implements
-const IMPLEMENTED: [u8; 19] = [0, 1, 2, 3, 4, 5, 6, 7, 8, 9, 10, 11, 12, 13, 14, 20, 21, 23, 24];
+const IMPLEMENTED: [u8; 19] = [
+    0, 1, 2, 3, 4, 5, 6, 7, 8, 9, 10, 11, 12, 13, 14, 20, 21, 23, 24,
+];
 const NO_ACK: [u8; 4] = [6, 8, 10, 12];
 
 fn definitely_unknown_group(g: u8) -> bool {
@@ -30,7 +34,10 @@ fn definitely_unknown_group(g: u8) -> bool {
 /// a header that is certainly rejected for the given function (or None)
 fn gen_rejected_header(rng: &mut Rng, func: u8) -> ReqHeader {
     match rng.below(6) {
-        0 => ReqHeader::all(*rng.pick(&[5u8, 9, 15, 27, 38, 49, 58, 77, 99, 200]), rng.range(1, 3) as u8),
+        0 => ReqHeader::all(
+            *rng.pick(&[5u8, 9, 15, 27, 38, 49, 58, 77, 99, 200]),
+            rng.range(1, 3) as u8,
+        ),
         1 => ReqHeader {
             // start > stop
             group: 1,
@@ -48,7 +55,9 @@ fn gen_rejected_header(rng: &mut Rng, func: u8) -> ReqHeader {
             _ => ReqHeader::all(*rng.pick(&[6u8, 16, 26]), 1),
         },
         3 => match func {
-            refapp::FUNC_SELECT | refapp::FUNC_OPERATE | refapp::FUNC_DIRECT_OPERATE => ReqHeader::all(60, 1),
+            refapp::FUNC_SELECT | refapp::FUNC_OPERATE | refapp::FUNC_DIRECT_OPERATE => {
+                ReqHeader::all(60, 1)
+            }
             refapp::FUNC_IMMED_FREEZE | refapp::FUNC_FREEZE_CLEAR => ReqHeader::all(30, 0),
             refapp::FUNC_WRITE => ReqHeader {
                 group: 80,
@@ -105,7 +114,12 @@ impl Scenario for ReplyScenario {
     }
 
     fn stub_components(&self) -> Vec<&'static str> {
-        vec!["physical layer (SimSocket)", "TCP accept loop", "user callbacks (recording stubs)", "scripted master peer (reference codec)"]
+        vec![
+            "physical layer (SimSocket)",
+            "TCP accept loop",
+            "user callbacks (recording stubs)",
+            "scripted master peer (reference codec)",
+        ]
     }
 
     fn generate(&self, rng: &mut Rng, _tier: Tier) -> SoutCase {
@@ -114,14 +128,22 @@ impl Scenario for ReplyScenario {
         cfg.sol_tx = *rng.pick(&[249usize, 249, 300, 512, 2048]);
         cfg.unsol_tx = *rng.pick(&[249usize, 300, 2048]);
         cfg.rx = *rng.pick(&[249usize, 512, 2048, 2048]);
-        cfg.max_controls = if rng.chance(1, 5) { Some(rng.range(1, 4) as u16) } else { None };
+        cfg.max_controls = if rng.chance(1, 5) {
+            Some(rng.range(1, 4) as u16)
+        } else {
+            None
+        };
         let nt = rng.range(1, 3) as usize;
         let sparse = rng.chance(1, 4);
         cfg.points = gen_points(rng, nt, 3, sparse, false);
         let mut clock = 3_000_000u64;
         let mut script = Vec::new();
         if cfg.unsolicited && rng.chance(2, 3) {
-            script.push(Op::Confirm { uns: true, seq: ConfSel::Expected, from: Who::Master });
+            script.push(Op::Confirm {
+                uns: true,
+                seq: ConfSel::Expected,
+                from: Who::Master,
+            });
             if rng.bool() {
                 script.push(unsol_op(rng, true));
             }
@@ -134,22 +156,76 @@ impl Scenario for ReplyScenario {
                     let mut u = gen_update(rng, &cfg.points, &mut clock);
                     u.event_mode = 1;
                     script.push(Op::Update(u));
-                    script.push(read_op(vec![class_header(1, None), class_header(2, None), class_header(3, None)]));
+                    script.push(read_op(vec![
+                        class_header(1, None),
+                        class_header(2, None),
+                        class_header(3, None),
+                    ]));
                 }
                 1 => {
                     let mut u = gen_update(rng, &cfg.points, &mut clock);
                     u.event_mode = 1;
                     script.push(Op::Update(u));
                 }
-                2 => script.push(Op::Confirm { uns: rng.bool(), seq: ConfSel::Expected, from: Who::Master }),
-                3 => script.push(Op::SleepRel { base: TimeBase::ConfirmTimeout, delta_ms: 1, since_last_tx: true }),
+                2 => script.push(Op::Confirm {
+                    uns: rng.bool(),
+                    seq: ConfSel::Expected,
+                    from: Who::Master,
+                }),
+                3 => script.push(Op::SleepRel {
+                    base: TimeBase::ConfirmTimeout,
+                    delta_ms: 1,
+                    since_last_tx: true,
+                }),
                 _ => {}
             }
             script.push(gen_request(rng, &cfg.points, cfg.rx));
+            if cfg.unsolicited && rng.chance(1, 6) {
+                // a READ that has to be rejected arrives while an unsolicited response awaits its confirmation: it is deferred
+                // and answered - with its error bit - once the series ends (by the confirmation or by the time-out)
+                script.push(Op::Confirm { uns: true, seq: ConfSel::Expected, from: Who::Master });
+                script.push(Op::Request {
+                    func: refapp::FUNC_ENABLE_UNSOL,
+                    seq: SeqSel::Next,
+                    headers: vec![class_header(1, None), class_header(2, None), class_header(3, None)],
+                    flags: None,
+                    from: Who::Master,
+                    to: Dest::Own,
+                });
+                let mut u = gen_update(rng, &cfg.points, &mut clock);
+                u.event_mode = 1;
+                script.push(Op::Update(u));
+                let mut headers = vec![if rng.bool() {
+                    gen_rejected_header(rng, refapp::FUNC_READ)
+                } else {
+                    // parses, but cannot be read
+                    let (g, v) = *rng.pick(&[(1u8, 2u8), (30, 1), (2, 1), (12, 1), (41, 2)]);
+                    ReqHeader { group: g, var: v, range: if rng.bool() { Range::Prefix8(rng.range(1, 3) as u8) } else { Range::Prefix16(rng.range(1, 3) as u16) }, data: vec![] }
+                }];
+                if rng.bool() {
+                    headers.push(class_header(0, None));
+                }
+                if rng.bool() {
+                    headers.insert(0, class_header(rng.range(1, 3) as u8, None));
+                }
+                script.push(Op::Request { func: refapp::FUNC_READ, seq: SeqSel::Next, headers, flags: None, from: Who::Master, to: Dest::Own });
+                if rng.bool() {
+                    script.push(Op::Confirm { uns: true, seq: ConfSel::Expected, from: Who::Master });
+                } else {
+                    script.push(Op::SleepRel { base: TimeBase::ConfirmTimeout, delta_ms: 1, since_last_tx: true });
+                }
+            }
         }
         SoutCase {
             cfg,
-            ctrl: if rng.chance(3, 4) { CtrlAnswers::AllSuccess } else { CtrlAnswers::Random { seed: rng.next_u64(), success_eighths: 5 } },
+            ctrl: if rng.chance(3, 4) {
+                CtrlAnswers::AllSuccess
+            } else {
+                CtrlAnswers::Random {
+                    seed: rng.next_u64(),
+                    success_eighths: 5,
+                }
+            },
             chunk: rng.below(5) as u8,
             chunk_seed: rng.next_u64(),
             script,
@@ -170,28 +246,68 @@ pub fn gen_request(rng: &mut Rng, points: &[PointCfg], rx: usize) -> Op {
         0..=2 => gen_executed_request(rng, points, Dest::Own),
         3 => {
             // any function code with plausible or no objects
-            let func = if rng.bool() { rng.u8() } else { *rng.pick(&[0u8, 15, 16, 17, 18, 19, 22, 25, 26, 27, 28, 29, 30, 31, 32, 33, 34, 70, 128, 129, 130, 131, 255]) };
+            let func = if rng.bool() {
+                rng.u8()
+            } else {
+                *rng.pick(&[
+                    0u8, 15, 16, 17, 18, 19, 22, 25, 26, 27, 28, 29, 30, 31, 32, 33, 34, 70, 128,
+                    129, 130, 131, 255,
+                ])
+            };
             let headers = match rng.below(3) {
                 0 => vec![],
                 1 => vec![ReqHeader::all(60, 1)],
                 _ => gen_controls(rng),
             };
-            Op::Request { func, seq: SeqSel::Next, headers, flags: None, from: Who::Master, to: Dest::Own }
+            Op::Request {
+                func,
+                seq: SeqSel::Next,
+                headers,
+                flags: None,
+                from: Who::Master,
+                to: Dest::Own,
+            }
         }
         4 => {
             // every header-flag combination
             let op = gen_executed_request(rng, points, Dest::Own);
             match op {
-                Op::Request { func, seq, headers, from, to, .. } => Op::Request { func, seq, headers, flags: Some((rng.below(16) as u8) << 4), from, to },
+                Op::Request {
+                    func,
+                    seq,
+                    headers,
+                    from,
+                    to,
+                    ..
+                } => Op::Request {
+                    func,
+                    seq,
+                    headers,
+                    flags: Some((rng.below(16) as u8) << 4),
+                    from,
+                    to,
+                },
                 o => o,
             }
         }
         5 | 6 => {
             // multi-header with mixed acceptability
-            let func = *rng.pick(&[refapp::FUNC_READ, refapp::FUNC_WRITE, refapp::FUNC_SELECT, refapp::FUNC_DIRECT_OPERATE, refapp::FUNC_IMMED_FREEZE, refapp::FUNC_ENABLE_UNSOL]);
+            let func = *rng.pick(&[
+                refapp::FUNC_READ,
+                refapp::FUNC_WRITE,
+                refapp::FUNC_SELECT,
+                refapp::FUNC_DIRECT_OPERATE,
+                refapp::FUNC_IMMED_FREEZE,
+                refapp::FUNC_ENABLE_UNSOL,
+            ]);
             let good: Vec<ReqHeader> = match func {
                 refapp::FUNC_READ => gen_event_read(rng, points),
-                refapp::FUNC_WRITE => vec![ReqHeader { group: 80, var: 1, range: Range::Range8(7, 7), data: vec![0] }],
+                refapp::FUNC_WRITE => vec![ReqHeader {
+                    group: 80,
+                    var: 1,
+                    range: Range::Range8(7, 7),
+                    data: vec![0],
+                }],
                 refapp::FUNC_SELECT | refapp::FUNC_DIRECT_OPERATE => gen_controls(rng),
                 refapp::FUNC_IMMED_FREEZE => vec![ReqHeader::all(20, 0)],
                 _ => vec![ReqHeader::all(60, 2)],
@@ -213,7 +329,14 @@ pub fn gen_request(rng: &mut Rng, points: &[PointCfg], rx: usize) -> Op {
                     headers.extend(good);
                 }
             }
-            Op::Request { func, seq: SeqSel::Next, headers, flags: None, from: Who::Master, to: Dest::Own }
+            Op::Request {
+                func,
+                seq: SeqSel::Next,
+                headers,
+                flags: None,
+                from: Who::Master,
+                to: Dest::Own,
+            }
         }
         7 => {
             // oversize control echo: many control objects
@@ -223,11 +346,20 @@ pub fn gen_request(rng: &mut Rng, points: &[PointCfg], rx: usize) -> Op {
                 data.push(i as u8);
                 data.extend(refapp::crob(0x01, 1, 100, 0, 0));
             }
-            let func = *rng.pick(&[refapp::FUNC_SELECT, refapp::FUNC_OPERATE, refapp::FUNC_DIRECT_OPERATE]);
+            let func = *rng.pick(&[
+                refapp::FUNC_SELECT,
+                refapp::FUNC_OPERATE,
+                refapp::FUNC_DIRECT_OPERATE,
+            ]);
             Op::Request {
                 func,
                 seq: SeqSel::Next,
-                headers: vec![ReqHeader { group: 12, var: 1, range: Range::Prefix8(count as u8), data }],
+                headers: vec![ReqHeader {
+                    group: 12,
+                    var: 1,
+                    range: Range::Prefix8(count as u8),
+                    data,
+                }],
                 flags: None,
                 from: Who::Master,
                 to: Dest::Own,
@@ -236,23 +368,42 @@ pub fn gen_request(rng: &mut Rng, points: &[PointCfg], rx: usize) -> Op {
         8 => {
             // raw garbage after a plausible application header
             let n = rng.urange(0, rx.min(600));
-            let mut bytes = vec![0xC0 | rng.below(16) as u8, *rng.pick(&[1u8, 2, 3, 5, 7, 20, 23])];
+            let mut bytes = vec![
+                0xC0 | rng.below(16) as u8,
+                *rng.pick(&[1u8, 2, 3, 5, 7, 20, 23]),
+            ];
             bytes.extend(rng.bytes(n));
-            Op::Raw { bytes, from: Who::Master, to: Dest::Own }
+            Op::Raw {
+                bytes,
+                from: Who::Master,
+                to: Dest::Own,
+            }
         }
         9 => {
             // truncated request
             let op = gen_executed_request(rng, points, Dest::Own);
             if let Op::Request { func, headers, .. } = op {
-                let mut bytes = refapp::build_request(refapp::Ctrl::request(rng.below(16) as u8), func, &headers);
+                let mut bytes = refapp::build_request(
+                    refapp::Ctrl::request(rng.below(16) as u8),
+                    func,
+                    &headers,
+                );
                 let cut = rng.urange(0, bytes.len().saturating_sub(1));
                 bytes.truncate(cut);
-                Op::Raw { bytes, from: Who::Master, to: Dest::Own }
+                Op::Raw {
+                    bytes,
+                    from: Who::Master,
+                    to: Dest::Own,
+                }
             } else {
                 Op::Sleep(1)
             }
         }
-        10 => Op::Confirm { uns: rng.bool(), seq: ConfSel::Fixed(rng.below(16) as u8), from: Who::Master },
+        10 => Op::Confirm {
+            uns: rng.bool(),
+            seq: ConfSel::Fixed(rng.below(16) as u8),
+            from: Who::Master,
+        },
         _ => Op::Request {
             func: *rng.pick(&[refapp::FUNC_READ, refapp::FUNC_WRITE]),
             seq: SeqSel::Next,
@@ -276,6 +427,8 @@ pub struct ReplyOracle {
     last_request_seq: Option<u8>,
     last_read_seq: Option<u8>,
     unsol_pending: bool,
+    /// a READ that must be rejected and was deferred (unsolicited confirm wait): (sequence number, why, step it was sent in)
+    deferred_reject: Option<(u8, &'static str, usize)>,
     nontrivial: bool,
     fp: u64,
     counters: BTreeMap<String, u64>,
@@ -295,6 +448,7 @@ impl ReplyOracle {
             last_request_seq: None,
             last_read_seq: None,
             unsol_pending: false,
+            deferred_reject: None,
             nontrivial: false,
             fp: 0,
             counters: BTreeMap::new(),
@@ -363,6 +517,14 @@ fn must_reject(bytes: &[u8]) -> Option<&'static str> {
                         None
                     }
                 }
+                refapp::FUNC_READ => {
+                    // index-prefixed headers address objects the request would have to carry: nothing to read
+                    if headers.iter().any(|h| matches!(h.qualifier, 0x17 | 0x28)) {
+                        Some("read-with-index-prefix-qualifier")
+                    } else {
+                        None
+                    }
+                }
                 refapp::FUNC_IMMED_FREEZE | refapp::FUNC_FREEZE_CLEAR => {
                     if headers.iter().any(|h| h.group != 20) {
                         Some("freeze-of-non-counter")
@@ -384,22 +546,68 @@ impl Oracle for ReplyOracle {
             self.last_request_seq = None;
             self.last_read_seq = None;
             self.unsol_pending = false;
+            self.deferred_reject = None;
         }
         for (_, cb) in &step.callbacks {
             if let Cb::Info(s) = cb {
-                if s.starts_with("unsolicited_confirmed") || (s.starts_with("unsolicited_confirm_timeout") && s.ends_with("false")) {
+                if s.starts_with("unsolicited_confirmed")
+                    || (s.starts_with("unsolicited_confirm_timeout") && s.ends_with("false"))
+                {
                     self.unsol_pending = false;
                 }
             }
         }
-        let sent = if step.link_up { step.sent.clone() } else { None };
-        let from_master_unicast = sent.as_ref().map(|s| s.src == self.master && s.dest == self.own).unwrap_or(false);
+        let sent = if step.link_up {
+            step.sent.clone()
+        } else {
+            None
+        };
+        let from_master_unicast = sent
+            .as_ref()
+            .map(|s| s.src == self.master && s.dest == self.own)
+            .unwrap_or(false);
         let was_unsol_pending = self.unsol_pending;
         if let Some(s) = &sent {
-            if from_master_unicast && s.bytes.len() >= 2 && s.bytes.len() <= self.rx && s.bytes[1] != refapp::FUNC_CONFIRM {
+            if from_master_unicast
+                && s.bytes.len() >= 2
+                && s.bytes.len() <= self.rx
+                && s.bytes[1] != refapp::FUNC_CONFIRM
+            {
                 self.last_request_seq = Some(s.bytes[0] & 0x0F);
                 if s.bytes[1] == refapp::FUNC_READ {
                     self.last_read_seq = Some(s.bytes[0] & 0x0F);
+                }
+            }
+        }
+
+        // a deferred READ that must be rejected is answered later (when the unsolicited series ends) - with its error bit;
+        // any other request in between supersedes it
+        if let Some((dseq, why, at)) = self.deferred_reject {
+            let superseded = sent.as_ref().map(|s| s.bytes.len() >= 2 && s.bytes[1] != refapp::FUNC_CONFIRM && s.src == self.master).unwrap_or(false);
+            if superseded || !matches!(step.op, Op::Confirm { .. } | Op::Sleep(_) | Op::SleepRel { .. } | Op::Update(_) | Op::UpdateAtLock { .. }) {
+                self.deferred_reject = None;
+            } else {
+                for rx in &step.received {
+                    let b = &rx.bytes;
+                    if b.len() >= 4 && b[1] == refapp::FUNC_RESPONSE && b[0] & 0x80 != 0 && b[0] & 0x0F == dseq {
+                        self.deferred_reject = None;
+                        self.bump("probe.deferred_rejected_read_answered");
+                        if b[3] & 0x07 == 0 {
+                            return Some(Violation::new(
+                                "C12/rejection-answered-clean",
+                                format!("{} func=1 deferred", why),
+                                format!(
+                                    "step {}: the READ sent in step {} (sequence {}, {}) was deferred and is now answered with a clean IIN2: {}",
+                                    step.op_index,
+                                    at,
+                                    dseq,
+                                    why,
+                                    crate::verif::io::hex(&b[..b.len().min(40)])
+                                ),
+                            ));
+                        }
+                        break;
+                    }
                 }
             }
         }
@@ -409,26 +617,53 @@ impl Oracle for ReplyOracle {
         for rx in &step.received {
             let b = &rx.bytes;
             if b.len() < 4 {
-                return Some(Violation::new("C12/fragment-too-short", "", format!("step {}: transmitted fragment {}", step.op_index, crate::verif::io::hex(b))));
+                return Some(Violation::new(
+                    "C12/fragment-too-short",
+                    "",
+                    format!(
+                        "step {}: transmitted fragment {}",
+                        step.op_index,
+                        crate::verif::io::hex(b)
+                    ),
+                ));
             }
             let func = b[1];
             let ctrl = refapp::Ctrl::from_u8(b[0]);
             let unsol = func == refapp::FUNC_UNSOL_RESPONSE;
             if func != refapp::FUNC_RESPONSE && func != refapp::FUNC_UNSOL_RESPONSE {
-                return Some(Violation::new("C12/response-function", format!("func={}", func), format!("step {}: transmitted fragment has function {}", step.op_index, func)));
+                return Some(Violation::new(
+                    "C12/response-function",
+                    format!("func={}", func),
+                    format!(
+                        "step {}: transmitted fragment has function {}",
+                        step.op_index, func
+                    ),
+                ));
             }
             let limit = if unsol { self.unsol_tx } else { self.sol_tx };
             if b.len() > limit {
                 return Some(Violation::new(
                     "C12/fragment-exceeds-tx-size",
                     if unsol { "unsolicited" } else { "solicited" },
-                    format!("step {}: fragment of {} octets exceeds the configured {} octets", step.op_index, b.len(), limit),
+                    format!(
+                        "step {}: fragment of {} octets exceeds the configured {} octets",
+                        step.op_index,
+                        b.len(),
+                        limit
+                    ),
                 ));
             }
             if rx.frag.is_none() {
                 return Some(Violation::new(
                     "C12/fragment-does-not-parse",
-                    rx.decode_error.clone().unwrap_or_default().split('{').next().unwrap_or("").trim().to_string(),
+                    rx.decode_error
+                        .clone()
+                        .unwrap_or_default()
+                        .split('{')
+                        .next()
+                        .unwrap_or("")
+                        .trim()
+                        .to_string(),
                     format!(
                         "step {}: transmitted fragment does not decode ({}): {}",
                         step.op_index,
@@ -442,7 +677,10 @@ impl Oracle for ReplyOracle {
                     return Some(Violation::new(
                         "C12/unsolicited-flags",
                         format!("{:02X}", b[0] & 0xF0),
-                        format!("step {}: unsolicited response with control octet {:02X}", step.op_index, b[0]),
+                        format!(
+                            "step {}: unsolicited response with control octet {:02X}",
+                            step.op_index, b[0]
+                        ),
                     ));
                 }
                 if let (Some(prev), false) = (&self.last_unsol, self.resync_unsol) {
@@ -451,8 +689,15 @@ impl Oracle for ReplyOracle {
                     if !retry && ctrl.seq != (prev_seq + 1) & 0x0F {
                         return Some(Violation::new(
                             "C12/unsolicited-sequence",
-                            if ctrl.seq == prev_seq { "reused-with-different-content" } else { "not-consecutive" },
-                            format!("step {}: unsolicited sequence {} after {}", step.op_index, ctrl.seq, prev_seq),
+                            if ctrl.seq == prev_seq {
+                                "reused-with-different-content"
+                            } else {
+                                "not-consecutive"
+                            },
+                            format!(
+                                "step {}: unsolicited sequence {} after {}",
+                                step.op_index, ctrl.seq, prev_seq
+                            ),
                         ));
                     }
                 }
@@ -461,10 +706,18 @@ impl Oracle for ReplyOracle {
                 self.unsol_pending = true;
             } else {
                 if ctrl.uns {
-                    return Some(Violation::new("C12/solicited-with-uns-bit", "", format!("step {}: solicited response with UNS set: {:02X}", step.op_index, b[0])));
+                    return Some(Violation::new(
+                        "C12/solicited-with-uns-bit",
+                        "",
+                        format!(
+                            "step {}: solicited response with UNS set: {:02X}",
+                            step.op_index, b[0]
+                        ),
+                    ));
                 }
                 if ctrl.fir {
-                    let ok = Some(ctrl.seq) == self.last_request_seq || Some(ctrl.seq) == self.last_read_seq;
+                    let ok = Some(ctrl.seq) == self.last_request_seq
+                        || Some(ctrl.seq) == self.last_read_seq;
                     if !ok {
                         return Some(Violation::new(
                             "C12/solicited-sequence",
@@ -481,7 +734,10 @@ impl Oracle for ReplyOracle {
                         return Some(Violation::new(
                             "C12/solicited-sequence",
                             "later-fragment",
-                            format!("step {}: non-FIR fragment seq {} after seq {}", step.op_index, ctrl.seq, prev),
+                            format!(
+                                "step {}: non-FIR fragment seq {} after seq {}",
+                                step.op_index, ctrl.seq, prev
+                            ),
                         ));
                     }
                 }
@@ -499,14 +755,27 @@ impl Oracle for ReplyOracle {
                 let func = b[1];
                 let seq = b[0] & 0x0F;
                 let flags_ok = b[0] & 0xF0 == 0xC0;
-                let replies: Vec<&&crate::verif::nodes::peer::RxFragment> = sol_in_step.iter().filter(|r| r.bytes[0] & 0x0F == seq && r.bytes[0] & 0x80 != 0).collect();
-                if func == refapp::FUNC_CONFIRM && flags_ok || (func == refapp::FUNC_CONFIRM && b[0] & 0xE0 == 0xC0) {
+                let replies: Vec<&&crate::verif::nodes::peer::RxFragment> = sol_in_step
+                    .iter()
+                    .filter(|r| r.bytes[0] & 0x0F == seq && r.bytes[0] & 0x80 != 0)
+                    .collect();
+                if func == refapp::FUNC_CONFIRM && flags_ok
+                    || (func == refapp::FUNC_CONFIRM && b[0] & 0xE0 == 0xC0)
+                {
                     // a CONFIRM is never answered (a following fragment of a series is not a reply to it: it is non-FIR)
                     if b.len() == 2 && !replies.is_empty() && !matches!(step.op, Op::Repeat) {
                         let r = replies[0];
                         // a FIR response with this sequence number may legitimately be a deferred READ being answered
                         if Some(seq) != self.last_read_seq {
-                            return Some(Violation::new("C12/confirm-answered", "", format!("step {}: CONFIRM answered with {}", step.op_index, crate::verif::io::hex(&r.bytes))));
+                            return Some(Violation::new(
+                                "C12/confirm-answered",
+                                "",
+                                format!(
+                                    "step {}: CONFIRM answered with {}",
+                                    step.op_index,
+                                    crate::verif::io::hex(&r.bytes)
+                                ),
+                            ));
                         }
                     }
                     verdict = 1;
@@ -516,11 +785,18 @@ impl Oracle for ReplyOracle {
                         verdict = 2;
                         match reject {
                             None => {
-                                if refapp::decode_objects(&b[2..], true).is_ok() && !replies.is_empty() {
+                                if refapp::decode_objects(&b[2..], true).is_ok()
+                                    && !replies.is_empty()
+                                {
                                     return Some(Violation::new(
                                         "C12/no-ack-function-answered",
                                         format!("func={}", func),
-                                        format!("step {}: function {} answered with {}", step.op_index, func, crate::verif::io::hex(&replies[0].bytes)),
+                                        format!(
+                                            "step {}: function {} answered with {}",
+                                            step.op_index,
+                                            func,
+                                            crate::verif::io::hex(&replies[0].bytes)
+                                        ),
                                     ));
                                 }
                             }
@@ -531,7 +807,11 @@ impl Oracle for ReplyOracle {
                                         return Some(Violation::new(
                                             "C12/rejected-no-ack-answered-clean",
                                             format!("func={}", func),
-                                            format!("step {}: {}", step.op_index, crate::verif::io::hex(&r.bytes)),
+                                            format!(
+                                                "step {}: {}",
+                                                step.op_index,
+                                                crate::verif::io::hex(&r.bytes)
+                                            ),
                                         ));
                                     }
                                 }
@@ -541,16 +821,28 @@ impl Oracle for ReplyOracle {
                         verdict = 3;
                         let deferred = func == refapp::FUNC_READ && was_unsol_pending;
                         if why != "function-not-implemented" && b.len() > 4 {
-                            self.nontrivial = self.nontrivial || refapp::decode_objects(&b[2..], func != refapp::FUNC_READ).map(|h| h.0.len() >= 2).unwrap_or(true);
+                            self.nontrivial = self.nontrivial
+                                || refapp::decode_objects(&b[2..], func != refapp::FUNC_READ)
+                                    .map(|h| h.0.len() >= 2)
+                                    .unwrap_or(true);
                         }
                         self.bump(&format!("probe.reject.{}", why));
                         match replies.first() {
                             None => {
+                                if deferred {
+                                    self.deferred_reject = Some((seq, why, step.op_index));
+                                    self.bump("probe.rejected_read_deferred");
+                                }
                                 if !deferred {
                                     return Some(Violation::new(
                                         "C12/rejection-not-answered",
                                         format!("{} func={}", why, func),
-                                        format!("step {}: request {} ({}) was met with silence", step.op_index, crate::verif::io::hex(&b[..b.len().min(40)]), why),
+                                        format!(
+                                            "step {}: request {} ({}) was met with silence",
+                                            step.op_index,
+                                            crate::verif::io::hex(&b[..b.len().min(40)]),
+                                            why
+                                        ),
                                     ));
                                 }
                             }
@@ -582,7 +874,14 @@ impl Oracle for ReplyOracle {
                 } else {
                     verdict = 5; // unusual header flags: only the per-fragment checks apply
                 }
-                self.fp = mix(&[self.fp, (func as u64).min(40), (b[0] >> 4) as u64, was_unsol_pending as u64, verdict, replies.len().min(2) as u64]);
+                self.fp = mix(&[
+                    self.fp,
+                    (func as u64).min(40),
+                    (b[0] >> 4) as u64,
+                    was_unsol_pending as u64,
+                    verdict,
+                    replies.len().min(2) as u64,
+                ]);
             }
         }
         None
